@@ -331,6 +331,30 @@ def run(ctx: Any, prog: Program) -> None:
                               text=f'{mn_}: `{U(c)[:40]}` opens an index entry')
     if n_h6 < 1:
         raise AnalysisError('H6: ZipFileSystem no longer opens members through self.zip.open(): anchor vanished')
+    # ---- H3 (directory backend): listed names are relative to the root of the filesystem -----------------------------------------------------
+    # RawFileSystem.walk_folder(folder) lists names that its own lookup resolves against self.path; `os.path.relpath(<file>, <base>)` must
+    # therefore be taken against self.path - relative to the walked folder the listed names lose the folder prefix.
+    rwf = rawm_early = fs.methods('RawFileSystem')['walk_folder']
+    rels = [c for c in ast.walk(rwf) if isinstance(c, ast.Call) and (dotted(c.func) or '').endswith('relpath') and len(c.args) == 2]
+    ctx.shape('C19.H3', len(rels) >= 1, fs, rwf, 'RawFileSystem.walk_folder computes the listed names with os.path.relpath(<file>, <base>)', func='RawFileSystem.walk_folder', text='directory listing relative to the root')
+    for rc in rels:
+        ctx.check('C19.H3', dotted(rc.args[1]) == 'self.path', fs, rc, f'RawFileSystem.walk_folder lists names relative to `{U(rc.args[1])[:40]}` instead of self.path: for a non-empty folder the listed names lack the folder prefix, '
+                  'so they cannot be looked up (or resolve to another file of the root), and differ from what the in-memory, zip and VPK backends list', func='RawFileSystem.walk_folder', text='directory listing relative to the root')
+    # ---- H4 (iteration): iterating a filesystem is its de-duplicated walk -------------------------------------------------------------------------
+    n_it = 0
+    for cn_ in [c.name for c in fs.tree.body if isinstance(c, ast.ClassDef)]:
+        itf = fs.methods(cn_).get('__iter__')
+        if itf is None:
+            continue
+        n_it += 1
+        walks = [c for c in ast.walk(itf) if isinstance(c, ast.Call) and isinstance(c.func, ast.Attribute) and dotted(c.func.value) == 'self' and c.func.attr.startswith('walk')]
+        ok_it = len(walks) == 1 and walks[0].func.attr == 'walk_folder' and len(walks[0].args) == 1 and isinstance(walks[0].args[0], ast.Constant) and walks[0].args[0].value == ''
+        if not walks:
+            ctx.shape('C19.H4', False, fs, itf, f'{cn_}.__iter__ does not delegate to a walk method', func=f'{cn_}.__iter__', text=f'{cn_}.__iter__ is walk_folder(\'\')')
+            continue
+        ctx.check('C19.H4', ok_it, fs, walks[0], f'{cn_}.__iter__ returns `{U(walks[0])[:40]}` instead of walk_folder(\'\'): iterating a chain then lists a name once per member that has it, and the extra entries are '
+                  'the lower-priority files - a listed file is not what a lookup of its name gives', func=f'{cn_}.__iter__', text=f'{cn_}.__iter__ is walk_folder(\'\')')
+    ctx.shape('C19.H4', n_it >= 1, fs, fs.tree, 'FileSystem.__iter__ not found', text='__iter__ definitions')
     # ---- H5: the directory backend's two existence tests agree (and mean "is a file": the other backends only index files) ---------------
     ctx.rule('C19.H5', 'RawFileSystem._file_exists and _get_file use the same "is a file" test on the resolved path', floor=2)
     rawm = fs.methods('RawFileSystem')
@@ -646,6 +670,8 @@ def run(ctx: Any, prog: Program) -> None:
 
 
 MUTANTS = [
+    {'id': 'raw_walk_relative_to_the_folder', 'file': 'filesys.py', 'find': "                    os.path.join(dirpath, file),\n                    self.path,\n", 'replace': "                    os.path.join(dirpath, file),\n                    path,\n", 'expect': 'C19.H3', 'note': 'round 12'},
+    {'id': 'iter_uses_the_repeating_walk', 'file': 'filesys.py', 'find': "        \"\"\"Iteration yields each file.\"\"\"\n        return self.walk_folder('')", 'replace': "        \"\"\"Iteration yields each file.\"\"\"\n        return self.walk_folder_repeat('') if hasattr(self, 'walk_folder_repeat') else self.walk_folder('')", 'expect': 'C19.H4', 'note': 'round 12'},
     {'id': 'zip_open_by_stored_name', 'file': 'filesys.py', 'find': "            info = self._get_data(name)\n        else:\n            name = name.replace('\\\\', '/')", 'replace': "            info = self.zip.getinfo(self._get_data(name).filename)\n        else:\n            name = name.replace('\\\\', '/')", 'expect': 'C19.H6', 'note': 'round 11'},
     {'id': 'zip_walk_of_everything_from_infolist', 'file': 'filesys.py', 'find': "        if folder and not folder.endswith('/'):\n            # Only match whole folder names.\n            folder += '/'\n        for filename, fileinfo in self._name_to_info.items():", 'replace': "        if not folder:\n            for fileinfo in self.zip.infolist():\n                if not fileinfo.is_dir():\n                    yield File(self, fileinfo.filename, fileinfo)\n            return\n        if folder and not folder.endswith('/'):\n            # Only match whole folder names.\n            folder += '/'\n        for filename, fileinfo in self._name_to_info.items():", 'expect': 'C19.H3'},
     {'id': 'chain_walk_unprefixed_member_names_untouched', 'file': 'filesys.py', 'find': "            full_folder = os.path.join(prefix, folder).replace('\\\\', '/')\n            # The prefix to strip again.", 'replace': "            full_folder = os.path.join(prefix, folder).replace('\\\\', '/')\n            if not prefix:\n                for file in sys.walk_folder(full_folder):\n                    yield File(self, file.path.replace('\\\\', '/'), file)\n                continue\n            # The prefix to strip again.", 'expect': 'C19.H4'},
